@@ -3,6 +3,7 @@ import sys
 from harness import common
 from symrun import loader
 loader.install()
+from harness.composed import payload  # noqa: E402
 from harness.explore import Explore, make_jobs, make_random_jobs  # noqa: E402
 
 CONFIGS = {
@@ -29,7 +30,7 @@ class MsgExplore(Explore):
         for i, c in enumerate(sim.cl):
             got = [e[1] for e in c.ev if e[0] == "message"]
             peer = "AB"[1 - i]
-            sent = [b"msg-%s-%d" % (peer.encode(), n) for n in range(sim.api[1 - i]["sent"])]
+            sent = [payload(peer, n) for n in range(sim.api[1 - i]["sent"])]
             if sim.getters and not c.delegated:
                 # deferred API with explicit get_message() calls: the k-th call's result is the k-th message (results in call order)
                 res = [ent[0][1] for (what, ent, _) in getattr(c, "get_log", []) if what == "get_message" and ent and ent[0][0] == "ok"]
